@@ -1,6 +1,19 @@
 import OSProofs.Props.C05
+import OSProofs.Props.C05b
 #print axioms OS.C05_same_direction
 #print axioms OS.C05_btPair_win_nonneg
 #print axioms OS.C05_btPair_loss_nonpos
 #print axioms OS.C05_btPair_loss_le_draw_le_win
 #print axioms OS.C05_tmPair_sign
+#print axioms OS.C05_sole_first
+#print axioms OS.C05_sole_last
+#print axioms OS.C05_sole_first_members
+#print axioms OS.C05_sole_last_members
+#print axioms OS.C05_compute_sole_first
+#print axioms OS.C05_compute_sole_last
+#print axioms OS.C05_two_team_chain
+#print axioms OS.C05_two_team_draw_BT_PL
+#print axioms OS.C05_two_team_draw_BT_PL_strict
+#print axioms OS.C05_two_team_draw_TM
+#print axioms OS.C05_identical_teams_BTF
+#print axioms OS.C05_identical_teams_TMF
